@@ -134,6 +134,28 @@ def reported_ids(run):
     return ids
 
 
+def reported_pairs(run):
+    """set of (source id, sink id) of the reported pairs whose callees are source<j> / sink<i>"""
+    out = set()
+    for p in run.get("pairs", []):
+        a = re.match(r"^source(\d+)$", p[2])
+        b = re.match(r"^sink(\d+)$", p[3])
+        if a and b:
+            out.add((int(a.group(1)), int(b.group(1))))
+    return out
+
+
+def expected_pairs(i, hits):
+    """(source id, sink id) pairs that native execution demands for scenario i: its own source and, when the scenario has a
+    second source (id 5000+i, atoms 2src-*), that one too - each only if its marker was observed at sink<i>"""
+    return set((j, i) for j in (i, 5000 + i) if (i, j) in hits)
+
+
+def scen_reported(i, hits, run):
+    """every natively observed (source, sink<i>) pair of scenario i is reported in this run"""
+    return expected_pairs(i, hits) <= reported_pairs(run)
+
+
 def run_ok(run):
     return not (run.get("timeout") or run.get("panic") or run.get("skipped") or run.get("load_error"))
 
@@ -163,7 +185,7 @@ def missed(manifest, hits, runs_by_spec):
         i = sc["id"]
         if (i, i) not in hits:
             continue
-        bad = [s for s, r in runs_by_spec.items() if run_ok(r) and i not in reported_ids(r)]
+        bad = [s for s, r in runs_by_spec.items() if run_ok(r) and not scen_reported(i, hits, r)]
         if bad:
             out.append((sc, bad))
     return out
@@ -263,8 +285,8 @@ def shrink(work, misses, specs, timeout=240, max_rounds=7, module="p1"):
                 st = state[k]
                 if st["done"] or k in progressed:
                     continue
-                if any(s in runs and run_ok(runs[s]) and i not in reported_ids(runs[s]) for s in st["bad"]) and \
-                        all(s in runs and run_ok(runs[s]) and i in reported_ids(runs[s]) for s in st["require"]):
+                if any(s in runs and run_ok(runs[s]) and not scen_reported(i, hits, runs[s]) for s in st["bad"]) and \
+                        all(s in runs and run_ok(runs[s]) and scen_reported(i, hits, runs[s]) for s in st["require"]):
                     st["cur"] = strip_scen(byid[i], new_id=st["orig"]["id"])
                     st["cur_keys"] = atom_keys(byid[i])
                     progressed.add(k)
@@ -316,3 +338,59 @@ def copy_prog(d, rd):
     shutil.copytree(d, dst, ignore=ign)
     shutil.copy(os.path.join(root, "go.mod"), os.path.join(rd, "prog", "go.mod"))
     return dst
+
+
+def _crash_of(res):
+    """panic text of the first run of a trun result ('' when it did not panic)"""
+    runs = res.get("runs", [])
+    return (runs[0].get("panic") or "") if runs else ""
+
+
+def isolate_crashers(work, scenarios, spec, timeout=200, module="p1", chunk=6, max_rounds=5):
+    """The analysis panics on a program made of `scenarios` under configuration `spec`: find the scenarios that make it
+    panic on their own (chunks -> single scenarios, each in its own generated program, run in parallel) and reduce each by
+    dropping source shape / wrap / atoms while it still panics.
+    Returns list of {scenario, minimal, key, panic}; empty when no single scenario reproduces the panic."""
+    def evaluate(tag, groups):
+        jobs = []
+        for n, scs in enumerate(groups):
+            d = os.path.join(work, "%s_%d" % (tag, n))
+            mugo(d, spec=[strip_scen(sc, new_id=i + 1) for i, sc in enumerate(scs)], module=module)
+            jobs.append((n, dict(d=d, specs=[spec], timeout=timeout, retry=False)))
+        res = trun_many(jobs, workers=max(2, min(len(jobs), (vlib.NCPU or 4) // 2)))
+        return [_crash_of(res[n]) for n in range(len(groups))]
+
+    groups = [scenarios[k:k + chunk] for k in range(0, len(scenarios), chunk)]
+    bad = [g for g, c in zip(groups, evaluate("crA", groups)) if c]
+    singles = [[sc] for g in bad for sc in g]
+    if not singles:
+        return []
+    out = []
+    crashing = [(g[0], c) for g, c in zip(singles, evaluate("crB", singles)) if c]
+    for n, (sc, ptxt) in enumerate(crashing):
+        cur = strip_scen(sc)
+        for rnd in range(max_rounds):
+            cands = []
+            if cur["src"] != "direct":
+                cands.append(strip_scen(cur, src="direct"))
+            if cur["wrap"] != "direct":
+                cands.append(strip_scen(cur, wrap="direct"))
+            if len(cur["atoms"]) > 1:
+                for j in range(len(cur["atoms"])):
+                    cands.append(strip_scen(cur, atoms=cur["atoms"][:j] + cur["atoms"][j + 1:]))
+            if not cands:
+                break
+            verdicts = evaluate("crC%d_%d" % (n, rnd), [[c] for c in cands])
+            nxt = [c for c, v in zip(cands, verdicts) if v]
+            if not nxt:
+                break
+            cur = nxt[0]
+        cat = {(a["Kind"], a["Variant"]): a["Key"] for a in catalogue()["atoms"]}
+        parts = []
+        if cur["src"] != "direct":
+            parts.append("src:" + cur["src"])
+        parts += [cat.get((a["kind"], a["variant"]), a["kind"] + ":" + a["variant"]) for a in cur["atoms"]]
+        if cur["wrap"] != "direct":
+            parts.append("wrap:" + cur["wrap"])
+        out.append({"scenario": sc, "minimal": cur, "key": "crash:" + "+".join(parts), "panic": ptxt})
+    return out
